@@ -25,6 +25,7 @@ def run(chk):
     if got is None:
         return
     recs, model = got
+    release_parity(chk, 'routes', recs)
     for r in recs:
         chk.count()
         rp = {'op': r.op, 'ids': [r.id], 'family': r.family, 'record': r.line[:3000]}
